@@ -808,6 +808,10 @@ static void one_literal(const std::string& cls, const std::string& lit) {
   if (o.cls == 4) { V("literal|" + cls + "|hang|" + shape(lit), cs, "'" + lit + "': " + o.msg); return; }
   if (o.cls == 3) { V("literal|" + cls + "|exception-through-expat|" + shape(lit), cs, "'" + lit + "': " + o.msg); return; }
   if (!acc && (o.line < 1 || o.msg.empty())) V("literal|" + cls + "|error-without-line", cs, o.str());
+  // a lexically valid double whose value is not representable (strtod overflows to infinity) may be
+  // accepted or refused with a located diagnostic: the manual defines no value for it
+  bool overflow = (cls == "double" || cls == "angle") && ref_double(lit) && std::isinf(strtod(lit.c_str(), nullptr));
+  if (overflow) { O("literal:" + cls + ":overflowing-literal" + (acc ? ":accepted" : ":refused")); if (!acc) return; }
   if (expect && !acc) V("literal|" + cls + "|documented-refused|" + shape(lit), cs, "'" + lit + "' is a valid " + why + " but: " + o.str());
   if (!expect && acc) V("literal|" + cls + "|undocumented-accepted|" + shape(lit), cs, "'" + lit + "' is not a valid " + why + " but the document is accepted");
 }
